@@ -68,16 +68,23 @@ def check_fa(acc, kind, spec, N, ns, variant=('s', '', 'sparse')):
         if ok:
             compare(acc, fname, inst, rp, got, accepted, n, sigma)
             generic(acc, fname, inst, rp, X, n, got)
+            if isinstance(got, set) and n == ns[-1]:
+                # the caller owns the returned set: emptying it must not influence a later call
+                keep = set(got)
+                got.clear()
+                ok2, again = core.lib_call(acc, fname, inst, f_enum, X, n, repro=rp)
+                if ok2 and again != keep:
+                    acc.viol(fname, 'a second call returns something else after the caller modified the first result', inst, repro=rp, observed=sorted(again ^ keep) if isinstance(again, set) else again)
 
 
 def one_fa(acc, kind, spec, N, ns, variant):
     check_fa(acc, kind, tup(spec), N, ns, tuple(variant))
 
 
-def check_re(acc, spec, N, ns, sigma=('a', 'b')):
+def check_re(acc, spec, N, ns, sigma=('a', 'b'), share=False, lib_obj=None):
     import gambatools.regexp_algorithms as ra
     rp = {'fn': 'mc.props.c02:one_re', 'mode': 'plain', 'params': {'spec': spec, 'N': N, 'ns': list(ns)}}
-    r = rx.to_lib(spec)
+    r = lib_obj if lib_obj is not None else rx.to_lib(spec, {} if share else None)
     sigma = list(sigma)
     acc.states += 1
     accepted = {}
@@ -99,10 +106,12 @@ def one_re(acc, spec, N, ns):
     check_re(acc, tup(spec), N, ns)
 
 
-def check_cfg(acc, spec, N, ns):
+def check_cfg(acc, spec, N, ns, morph=False):
     import gambatools.cfg_algorithms as ca
     rp = {'fn': 'mc.props.c02:one_cfg', 'mode': 'plain', 'params': {'spec': spec, 'N': N, 'ns': list(ns)}}
-    G = cfg.to_lib(spec)
+    if morph:
+        rp = {'fn': 'mc.props.c02:t_cfg', 'mode': 'plain', 'params': dict(acc.data.get('ctx', {}), upto=spec)}
+    G = cfg.morph(spec) if morph else cfg.to_lib(spec)
     sigma = list(spec[2])
     acc.states += 1
     accepted = {}
@@ -178,12 +187,13 @@ def one_pda(acc, spec, N, ns, limits, stack):
     check_pda(acc, tup(spec), N, ns, tuple(limits), tuple(stack))
 
 
-def check_tm(acc, spec, N, ns, budgets):
+def check_tm(acc, spec, N, ns, budgets, blank='_', kw=None):
     import gambatools.tm_algorithms as ta
-    rp = {'fn': 'mc.props.c02:one_tm', 'mode': 'plain', 'params': {'spec': spec, 'N': N, 'ns': list(ns), 'budgets': list(budgets)}}
-    T = tm.build(spec)
-    sigma = tm.parts(spec)[1]
-    shown = tm.show(spec)
+    kw = kw or {}
+    rp = {'fn': 'mc.props.c02:one_tm', 'mode': 'plain', 'params': {'spec': spec, 'N': N, 'ns': list(ns), 'budgets': list(budgets), 'blank': blank, 'kw': kw}}
+    T = tm.build(spec, blank, **kw)
+    sigma = tm.parts(spec, blank, **kw)[1]
+    shown = tm.show(spec, blank, **kw)
     acc.states += 1
     seen = set()
     for k in budgets:
@@ -204,8 +214,18 @@ def check_tm(acc, spec, N, ns, budgets):
     acc.nontrivial += len(seen) >= 2
 
 
-def one_tm(acc, spec, N, ns, budgets):
-    check_tm(acc, tup(spec), N, ns, tuple(budgets))
+def one_tm(acc, spec, N, ns, budgets, blank='_', kw=None):
+    check_tm(acc, tup(spec), N, ns, tuple(budgets), blank, kw)
+
+
+def t_tm_blank(acc, N, ns, budgets, shard, nshard):
+    """Machines that differ ONLY in which tape symbol is the blank (same states, same tape alphabet {a, _, #}, same
+    delta), enumerated back to back in one process."""
+    for idx, spec in tm.tms(1, 3):
+        if idx % nshard != shard:
+            continue
+        for blank in (('_', '#') if idx % 2 else ('#', '_')):
+            check_tm(acc, spec, N, ns, tuple(budgets), blank, {'gamma': ['a', '_', '#'], 'sigma': ['a']})
 
 
 def check_set(acc):
@@ -232,18 +252,43 @@ def t_nfa(acc, space, N, ns, shard, nshard, variants):
             check_fa(acc, 'nfa', spec, N, ns, tuple(v))
 
 
-def t_re(acc, m, N, ns, shard, nshard, digits=False):
+def t_re(acc, m, N, ns, shard, nshard, digits=False, share=False):
     leaves = ('0', '1', 's1', 'a') if digits else ('0', '1', 'a', 'b')
     for idx, spec in rx.trees_up_to(m, leaves):
         if idx % nshard == shard:
-            check_re(acc, spec, N, ns, ['1', 'a'] if digits else ['a', 'b'])
+            check_re(acc, spec, N, ns, ['1', 'a'] if digits else ['a', 'b'], share=share)
 
 
-def t_cfg(acc, space, N, ns, shard, nshard, stride=1, offset=0):
+def t_re_from_dfa(acc, n, k, N, ns, shard, nshard, stride=1):
+    """Expression objects as the library itself produces them (dfa_to_regexp returns DAGs with shared nodes)."""
+    from gambatools.regexp_algorithms import dfa_to_regexp
+    for idx in range(shard * stride, spaces.dfa_size(n, k), nshard * stride):
+        spec = spaces.dfa_spec(n, k, idx)
+        ok, r = core.lib_call(acc, 'dfa_to_regexp', {'dfa': spec}, dfa_to_regexp, spaces.build_dfa(spec))
+        if not ok:
+            continue
+        try:
+            rs = rx.from_lib(r)
+        except rx.Malformed:
+            continue
+        if rx.nodes(rs) <= 60:
+            check_re(acc, rs, N, ns, spaces.LETTERS[:k], lib_obj=r)
+
+
+def t_cfg(acc, space, N, ns, shard, nshard, stride=1, offset=0, morph=False, upto=None):
+    upto = tup(upto) if upto is not None else None
     gen = cfg.cnf3() if space == 'cnf3' else cfg.cfg2(space == 'cfg2+')
+    if morph:
+        cfg._LIVE.clear()
+        acc.data['ctx'] = {'space': space, 'N': N, 'ns': list(ns), 'shard': shard, 'nshard': nshard, 'stride': stride, 'offset': offset, 'morph': True}
     for idx, spec in gen:
         if idx % stride == offset % stride and (idx // stride) % nshard == shard:
-            check_cfg(acc, spec, N, ns)
+            check_cfg(acc, spec, N, ns, morph=morph)
+            if not morph and (idx // stride) % 4 == 0:
+                check_cfg(acc, ('cfg', spec[1], spec[2], spec[3], 'A'), N, ns)          # same rules, other start variable
+            if upto is not None and spec == upto:
+                break
+    acc.data.clear()
 
 
 def t_pda(acc, n, k, g, t, N, ns, limits, shard, nshard, stride=1, offset=0, tmin=0):
@@ -284,6 +329,11 @@ def plan(tier, seed):
     add('t_nfa', 2, space=['chain', 5], N=3, ns=[0, 1, 2, 3], variants=V[:1])
     add('t_re', 16, m=6 if q else 7, N=N, ns=ns)
     add('t_re', 4, m=5, N=N, ns=ns, digits=True)
+    add('t_re', 8, m=6, N=3, ns=[0, 1, 2, 3], share=True)
+    add('t_re_from_dfa', 2, n=2, k=2, N=3, ns=[0, 1, 2, 3])
+    add('t_re_from_dfa', 16, n=3, k=2, N=3, ns=[2, 3], stride=4 if q else 1)
+    add('t_cfg', 8, space='cfg2', N=3, ns=[0, 1, 2, 3], stride=32 if q else 8, offset=seed, morph=True)
+    add('t_tm_blank', 8, N=2, ns=[0, 1, 2], budgets=[0, 2, 8])
     add('t_cfg', 32, space='cfg2', N=N, ns=ns, stride=8 if q else 1, offset=seed)
     add('t_cfg', 16, space='cfg2+', N=N, ns=ns, stride=32 if q else 4, offset=seed)
     add('t_cfg', 16, space='cnf3', N=N, ns=ns, stride=4 if q else 1, offset=seed)
